@@ -111,7 +111,11 @@ def install(eng):
     def bi_numpy_ma_getmaskarray(self, st, args, kw):
         s = self.arr_state(st, args[0])
         miss = s.miss if s.kind == "MA" else (lambda c: z3.BoolVal(False))
-        yield st, st.alloc(ArrState("ND", smt.BOOLDT, s.shape, lambda c, miss=miss: z3.If(miss(c), z3.RealVal(1), z3.RealVal(0)), lambda c: z3.BoolVal(False)))
+        out = ArrState("ND", smt.BOOLDT, s.shape, lambda c, miss=miss: z3.If(miss(c), z3.RealVal(1), z3.RealVal(0)), lambda c: z3.BoolVal(False))
+        src = args[0].base if isinstance(args[0], (DataView, MaskView)) else args[0]
+        if isinstance(src, Ref) and not st.is_fresh(src):
+            out.shares = src  # getmaskarray hands out the array's own mask when it has one: an in-place update would change the input
+        yield st, st.alloc(out)
 
     orig_binop = E.bi_arr_binop
 
